@@ -22,6 +22,7 @@
 #include <signal.h>
 #include <unistd.h>
 #include <stdarg.h>
+#include <sys/mman.h>
 #include "mir.h"
 #include "mir-gen.h"
 
@@ -93,6 +94,21 @@ static void drop_ctx (void) {
 
 static char engine[32];
 
+/* The buffer a MIR function is called on lives at a fixed address (0x10000000), so that programs of MIRProg.tla can
+   address it with numbers: index-only and displacement-only memory operands.  */
+#define ABS_BASE ((unsigned char *) 0x10000000)
+#define ABS_SIZE (1 << 20)
+static unsigned char *abs_buf (size_t n) {
+  static int mapped = 0;
+  if (!mapped) {
+    void *p = mmap (ABS_BASE, ABS_SIZE, PROT_READ | PROT_WRITE, MAP_PRIVATE | MAP_ANONYMOUS | MAP_FIXED_NOREPLACE, -1, 0);
+    if (p != (void *) ABS_BASE) { printf ("F cannot map the call buffer at %p\n", (void *) ABS_BASE); exit (2); }
+    mapped = 1;
+  }
+  if (n > ABS_SIZE) { printf ("F call buffer too large\n"); exit (2); }
+  return ABS_BASE;
+}
+
 int main (void) {
   static char line[1 << 16];
   signal (SIGALRM, on_alarm);
@@ -155,13 +171,13 @@ int main (void) {
       n = strlen (hex);
       while (n > 0 && (hex[n - 1] == '\n' || hex[n - 1] == ' ')) n--;
       n /= 2;
-      buf = malloc (n + 64);
+      buf = abs_buf (n + 64); /* the caller's buffer has a known address: MIRSem.tla AbsBaseNat */
       for (i = 0; i < n; i++) buf[i] = (unsigned char) (hexval (hex[2 * i]) * 16 + hexval (hex[2 * i + 1]));
       memset (buf + n, 0xEE, 64); /* guard */
       f = find_func (fname);
       if (f == NULL) { printf ("F no function %s\n", fname); return 2; }
       nlog = 0;
-      if (setjmp (errjmp)) { ctx = NULL; gen_on = 0; free (buf); continue; }
+      if (setjmp (errjmp)) { ctx = NULL; gen_on = 0; continue; }
       alarm (getenv ("MIRRUN_CALL_TIMEOUT") != NULL ? atoi (getenv ("MIRRUN_CALL_TIMEOUT")) : 20);
       if (strcmp (engine, "interp") == 0) {
         MIR_val_t arg, res;
@@ -179,7 +195,6 @@ int main (void) {
       printf (" %s L%d", i == 64 ? "g" : "GUARD-OVERWRITTEN", nlog);
       for (i = 0; i < (size_t) nlog && i < MAXLOG; i++) printf (" %lld:%016llx", (long long) log_id[i], (unsigned long long) log_v[i]);
       printf ("\n");
-      free (buf);
     } else if (line[0] == 'G') {
       char fname[128];
       MIR_item_t f;
